@@ -34,10 +34,13 @@ func runC07(x *mc.X) {
 	method := mc.Pick(x, "method", c07Methods)
 	status := mc.Pick(x, "status", c07Statuses)
 	target := mc.Pick(x, "target-spelling", c07Targets)
-	locField := mc.Pick(x, "field", []string{"Location", "Content-Location", "both"})
+	locField := mc.Pick(x, "field", []string{"Location", "Content-Location", "both", "Location=cross-origin+Content-Location", "Content-Location=cross-origin+Location"})
 	loc := mc.Pick(x, "field-value", c07Locs)
 	if loc == "" && locField != "Location" {
 		x.Skip()
+	}
+	if strings.Contains(locField, "cross-origin") && !map[string]bool{"sib": true, "/a/sib": true, "http://EXAMPLE.COM:80/a/sib": true}[loc] {
+		x.Skip() // the mixed forms pair a cross-origin value in one field with a same-origin value in the other
 	}
 	nVar := mc.Pick(x, "target-variants", []int{0, 1, 3})
 	rounds := mc.Pick(x, "rounds", []int{1, 2})
@@ -105,6 +108,12 @@ func c07Round(x *mc.X, w *world.W, round int, method string, status int, target,
 
 	var h [][2]string
 	if loc != "" {
+		switch locField {
+		case "Location=cross-origin+Content-Location":
+			h = append(h, [2]string{"Location", "http://elsewhere.example/x"}, [2]string{"Content-Location", loc})
+		case "Content-Location=cross-origin+Location":
+			h = append(h, [2]string{"Content-Location", "http://elsewhere.example/x"}, [2]string{"Location", loc})
+		}
 		if locField == "Location" || locField == "both" {
 			h = append(h, [2]string{"Location", loc})
 		}
